@@ -1,3 +1,7 @@
 import Tfv.Model.Basic
 import Tfv.Model.Sub
 import Tfv.Model.Sexp
+import Tfv.Model.Bag
+import Tfv.Model.Apply
+import Tfv.Model.Closure
+import Tfv.Model.Uri
